@@ -401,6 +401,44 @@ func familyCache(t *testing.T) {
 				}
 				r.close()
 			case 3: // expired-first eviction: a full cache with a mix of elapsed and live entries, then overflow, then probe
+				if h%12 == 9 { // a purge that removes more entries than it keeps: the survivors keep their order of use
+					cap := 6 + rng.Intn(3)
+					r := newCacheRun(cap)
+					T.stat("cache.family.purge-majority")
+					for round := 0; round < 6; round++ {
+						nLong := 2 + rng.Intn(2)
+						longAt := map[int]bool{}
+						for _, i := range rng.Perm(cap)[:nLong] {
+							longAt[i] = true
+						}
+						var longs []string
+						for i := 0; i < cap; i++ {
+							k := fmt.Sprintf("p%d_%d", round, i)
+							if longAt[i] {
+								r.set(k, r.opIdx+1, time.Hour)
+								longs = append(longs, k)
+							} else {
+								r.set(k, r.opIdx+1, 10)
+							}
+							r.sleep(time.Duration(rng.Intn(2)))
+						}
+						for _, i := range rng.Perm(len(longs)) { // use the survivors-to-be in an order of their own
+							r.get(longs[i])
+						}
+						r.sleep(20)
+						r.clean()
+						for i := 0; i < cap-nLong+1+rng.Intn(nLong); i++ { // refill and overflow: the least recently used survivor goes first
+							r.set(fmt.Sprintf("q%d_%d", round, i), r.opIdx+1, time.Hour)
+						}
+						for _, k := range longs {
+							r.get(k)
+						}
+						r.sleep(2 * time.Hour)
+						r.clean()
+					}
+					r.close()
+					continue
+				}
 				cap := 3 + rng.Intn(6)
 				r := newCacheRun(cap)
 				T.stat("cache.family.expired-first")
